@@ -105,6 +105,12 @@ pub struct World {
     pub intentional_yield: bool,
     /// set by a busy inner future that has just used up the budget: that poll costs 1 virtual ms
     pub busy_poll: bool,
+    /// total time that callbacks blocked the thread (`block_for`)
+    pub blocked_ms: u64,
+    /// circuit-breaker harness: the call-permitted listener blocks the thread for `.1` ms at the
+    /// `.0`-th permitted call (and at every later one if `.2`)
+    pub cb_block: Option<(u8, u64, bool)>,
+    pub cb_block_seen: u8,
     /// set by a busy inner future before its first budget-burning poll
     pub busy_mark: bool,
     /// the task being polled runs with a cooperative budget
@@ -144,6 +150,9 @@ impl World {
             buggify_rate: 0,
             intentional_yield: false,
             busy_poll: false,
+            blocked_ms: 0,
+            cb_block: None,
+            cb_block_seen: 0,
             busy_mark: false,
             constrained_now: false,
             active: false,
@@ -234,6 +243,23 @@ pub fn note(tag: &'static str, a: i64, b: i64) -> u64 {
 
 pub fn seq() -> u64 {
     with(|w| w.seq)
+}
+
+/// A synchronous callback (listener, closure) that *blocks the thread* for `ms`: virtual time
+/// passes inside the current poll. tokio's paused clock can only be moved by `time::advance`,
+/// an async fn whose first poll moves the clock and whose remainder is a plain yield; polling it
+/// once with a no-op waker therefore moves the clock right here, deterministically. Timers that
+/// fall due fire at the runtime's next turn, as after a real blocking call.
+pub fn block_for(ms: u64) {
+    if with(|w| w.ended || !w.active || w.t0.is_none()) {
+        return;
+    }
+    fault("blocking_callback");
+    log(Ev::Jump { ms });
+    with(|w| w.blocked_ms += ms);
+    let mut f = Box::pin(tokio::time::advance(std::time::Duration::from_millis(ms)));
+    let wk = std::task::Waker::noop();
+    let _ = std::future::Future::poll(f.as_mut(), &mut std::task::Context::from_waker(wk));
 }
 
 pub fn fault(kind: &'static str) {
